@@ -124,8 +124,10 @@ def monitor (cfgF : Fields) (ops : List (Nat × Fields)) : String :=
   let reins := getNatD cfgF "reins" 0 > 0
   -- directed scenario: a lookup's disk load was held in flight across a remove / an overwrite of its key
   let directed := getD cfgF "directed" "" = "inflight"
-  let rec go (st : MSt) (reopened : Bool) : List (Nat × Fields) → Nat → String
-    | [], _ => "HOLDS"
+  -- `deferred`: a failure that does not stop the evaluation of the rest of the trace (the redundant second write
+  -- of a queued entry, a recorded finding): it is reported only if nothing else fails
+  let rec go (st : MSt) (reopened : Bool) (deferred : Option String) : List (Nat × Fields) → Nat → String
+    | [], _ => deferred.getD "HOLDS"
     | (ln, f) :: rest, n =>
       let op := getD f "op" ""
       let k := getNatD f "k" 0
@@ -255,13 +257,15 @@ def monitor (cfgF : Fields) (ops : List (Nat × Fields)) : String :=
       let rec firstDup : List String → Option String
         | [] => none
         | x :: xs => if xs.contains x then some x else firstDup xs
-      let dupWrite : Option String :=
+      -- in a call that only lets the flusher run (unhold, release, wait, close) two copies mean the entry was
+      -- queued twice earlier
+      let flushOnly := op = "unhold" || op = "releaseall" || op = "releasebatch" || op = "wait" || op = "reopen"
+      let dupAny : Option String :=
         if reins then none else (firstDup wentL).map fun x =>
-          -- in a call that only lets the flusher run (unhold, release, wait, close) two copies mean the entry was
-          -- queued twice earlier
-          let flushOnly := op = "unhold" || op = "releaseall" || op = "releasebatch" || op = "wait" || op = "reopen"
           fail "C12" (if flushOnly then "queued_entry_written_twice" else "entry_written_twice_by_one_call")
             s!"entry key.version {x} was written to the device twice during {op}"
+      let dupWrite : Option String := if flushOnly then none else dupAny
+      let deferred' : Option String := deferred <|> (if flushOnly then dupAny else none)
       let woiEvict : Option String :=
         if woi && op = "evict" && quiet && w > 0 then some (fail "C12" "write_on_insertion_wrote_at_eviction" s!"{w} bytes") else none
       -- C15: graceful close
@@ -356,7 +360,7 @@ def monitor (cfgF : Fields) (ops : List (Nat × Fields)) : String :=
       | some s => s
       | none =>
         go { truth := truth', advice := advice', big := big', prevMem := mem, wild := wild', ghost := ghost', inval := inval', lastLoc := lastLoc', persisted := persisted', fromDisk := fromDisk', held := held', gated := gated' }
-          (reopened || op = "reopen") rest (n + 1)
-  go {} false ops 0
+          (reopened || op = "reopen") deferred' rest (n + 1)
+  go {} false none ops 0
 
 end Driver.Hyb
